@@ -382,9 +382,12 @@ func unEscape(r []rune) string {
 				i += 5
 				continue
 			case 'U':
-				rc, err := strconv.ParseInt(string(r[i+1:i+9]), 16, 32)
+				rc, err := strconv.ParseUint(string(r[i+1:i+9]), 16, 32)
 				if err != nil {
 					panic(fmt.Errorf("internal parser error: %w", err))
+				}
+				if rc > unicode.MaxRune {
+					rc = utf8.RuneError
 				}
 				buf.WriteRune(rune(rc))
 				i += 9
